@@ -11,7 +11,7 @@ def binop(kind, code, x, y):
     if kind == 2:
         return x + y if code == 11 else None
     x, y = x[0], y[0]
-    if kind == 0:
+    if kind in (0, 3):
         if code == 11: n = x + y
         elif code == 12: n = x - y
         elif code == 13: n = x * y
@@ -39,13 +39,16 @@ def rand_value(rng, kind, cur):
     c = cur[0]
     if kind == 0:
         return [rng.choice([c, c, c + 1, c - 1, 0, 1, -1, rng.range(-50, 50), rng.range(-100000, 100000)])]
+    if kind == 3:   # equality = same bucket of eight: aim at the bucket boundaries
+        b = c // 8 * 8
+        return [rng.choice([c, c + 1, c - 1, b, b - 1, b + 7, b + 8, 0, -1, -8, -9, 7, 8, rng.range(-40, 40), rng.range(-100000, 100000)])]
     # doubles: aim at the tolerance boundary |a-b| < 1/64
     return [rng.choice([c, c + TOL - 1, c + TOL, c - TOL + 1, c - TOL, c + TOL + 1, c + 1, 0, SCALE, -SCALE // 2,
                         rng.range(-64, 64) * TOL, rng.range(-5, 5) * SCALE + rng.range(0, 63) * TOL])]
 
 
 def gen_case(rng, maxops):
-    kind = rng.weighted([(0, 4), (1, 4), (2, 3)])
+    kind = rng.weighted([(0, 4), (1, 4), (2, 3), (3, 3)])
     cur = rand_value(rng, kind, [0] if kind != 2 else [])
     lines = [[kind], list(cur)]
     nsub = 0
@@ -63,6 +66,8 @@ def gen_case(rng, maxops):
             lines.append([10] + v)
             if kind == 1:
                 if not abs(cur[0] - v[0]) < TOL: cur = v
+            elif kind == 3:
+                if cur[0] // 8 != v[0] // 8: cur = v
             elif cur != v:
                 cur = v
         elif k == "bin":
@@ -70,7 +75,7 @@ def gen_case(rng, maxops):
             if kind == 2:
                 y = rand_value(rng, 2, [])
                 if rng.chance(1, 3): y = []
-            elif kind == 0:
+            elif kind in (0, 3):
                 y = [rng.choice([0, 1, -1, 2, 3, -2, 10, rng.range(-20, 20)])]
             else:
                 y = [rng.choice([0, SCALE, 2 * SCALE, SCALE // 2, SCALE // 4, -SCALE, 3 * SCALE, TOL, TOL // 2, rng.range(-8, 8) * TOL])]
@@ -106,7 +111,8 @@ class C16(Spec):
     design_ref = "DESIGN.md section 4, C16"
     rule = ("histories of 1-40 operations (=, +=, -=, *=, /=, ++, --, apply(set), apply(identity), subscribe, unsubscribe, mute, unmute, "
             "invalidate; ~3% operations violating a precondition) over Observable<int>, Observable<double, NearEq(1/64)> driven with "
-            "dyadic rationals n/2^20 around the tolerance boundary, and Observable<std::string>; subscribers take T& or T by value; "
+            "dyadic rationals n/2^20 around the tolerance boundary, Observable<std::string>, and Observable<int, BucketEq> (equal = same "
+            "bucket of eight: an equality coarser than the step of ++/--); subscribers take T& or T by value; "
             "non-trivial = at least one subscriber and one value-changing operator; distinct = distinct case text")
     level_text = ("Kernel-checked for an arbitrary value type and an arbitrary boolean Eq (not assumed to be an equivalence): an assignment "
                   "stores and notifies every live unmuted subscriber exactly once, in order, with the new value iff Eq(old, new) is false "
@@ -128,7 +134,7 @@ class C16(Spec):
         out = []
         for i in range(n):
             lines = gen_case(rng, rng.choice([6, 12, 25, 40]))
-            out.append((f"type={['int', 'double+NearEq', 'string'][lines[0][0]]}", lines))
+            out.append((f"type={['int', 'double+NearEq', 'string', 'int+BucketEq'][lines[0][0]]}", lines))
         return out
 
     def nontrivial(self, lines):
@@ -138,7 +144,7 @@ class C16(Spec):
     def classify(self, lines):
         names = {"0": "subscribe", "1": "unsubscribe", "2": "mute", "3": "unmute", "4": "invalidate", "10": "=", "11": "+=", "12": "-=",
                  "13": "*=", "14": "/=", "15": "x++", "16": "++x", "17": "x--", "18": "--x", "19": "apply"}
-        tags = {"type:" + ["int", "double", "string"][int(lines[0].split()[0])]}
+        tags = {"type:" + ["int", "double", "string", "int+BucketEq"][int(lines[0].split()[0])]}
         for l in lines[2:]:
             if l.split():
                 tags.add("op:" + names.get(l.split()[0], "malformed"))
